@@ -59,7 +59,7 @@ def run_check(prop, tier, verdict):
     os.makedirs(C.REPLAYS_TMP, exist_ok=True)
     jobs = []
     nsh = 4
-    exh_cfgs = ["u8_b4_n16", "u8_b8_n0", "u8_b24_n4"] if tier == "quick" else U8
+    exh_cfgs = ["u8_b8_n0", "u8_b24_n4"] if tier == "quick" else U8
     for build_name, exe in exes.items():
         for cfg in exh_cfgs:
             for sh in range(nsh):
